@@ -20,6 +20,7 @@ CHECKS = {
  'C37': (MC, "the real export_apps_to_format run with recording os/open stubs: class body of 1..5 (thorough 6) and method name of 1..4 (thorough 5) fully symbolic characters; every created path must stay under the output directory by a segment walk", '5/C37', 'symbolic execution over symbolic strings with a recording filesystem stub'),
  'C34': (MC, "PARTIAL: get_dex_names / is_multidex / get_all_dex selection with get_files() stubbed: one fully symbolic entry name of 0..14 (thorough 16) characters next to fixed entries, plus the regex literals of the real functions compared with classes[0-9]*\\.dex over unbounded strings by z3's regex theory. Archive reading (apkInspector, zlib) is outside the claim", '5/C34', 'symbolic regex execution + z3 sequence/regex theory language inclusion'),
  'C39': (MC, "load_api_specific_resource_module / load_permissions / load_permission_mappings with the API level symbolic: every integer up to +-2^100 and canonical decimal strings of up to 3 digits (and negatives); isfile answers derived from the shipped level lists; the opened level is compared with the documented rule", '5/C39', 'symbolic execution with format markers / symbolic strings and a filesystem stub'),
+ 'C31': (MC, "PARTIAL: only the manifest kernels that do not pass through lxml: APK._format_value (component-name completion, value 0..6 / package 0..4 symbolic characters) and get_effective_target_sdk_version (target/min as None, empty or 1..3 symbolic digits). Everything that walks the lxml tree is outside the claim", '5/C31', 'symbolic execution over symbolic strings'),
  'C27': (MC, "format_value / complexToFloat / get_resource_dimen / get_resource_color / Res_value decoding for all 2^32 data words of every AOSP value type, floats as z3 Float64/Float32", '5/C27', 'symbolic execution with format markers and z3 FP theory'),
  'C04': (MC, "encoded_value header byte over every legal (type,value_arg) pair with fully symbolic payload bytes; nested array/annotation template with symbolic size and leaves; printed field initialiser of DvClass.get_source", '5/C04', 'symbolic execution of EncodedValue/EncodedArray/EncodedAnnotation + DvClass.get_source field block'),
  'C03': (MC, "all 2^40 five-byte LEB128 prefixes and all 2^32 values for the writers, against a z3 definition of (U/S)LEB128", '5/C03', 'symbolic execution of the five LEB128 functions, z3 BV'),
